@@ -35,6 +35,8 @@ Theorem C16_no_write_after : forall fuel c hb arr t,
 Proof. exact no_write_after. Qed.
 Print Assumptions C16_no_write_after.
 
+(* (an instant that is already past when the connection opens - a dispatch timeout beyond the write timeout or beyond the
+   token's remaining life - is negative on this time line: the timer fires at once, before anything else) *)
 (* with a maximum duration the hub ends the connection itself, exactly at the disconnection instant - no write fails before
    and it does not end earlier; without one, the handler ends only on a write attempted after the deadline *)
 Theorem C16_end_exact : forall fuel c hb arr t b,
